@@ -1,7 +1,7 @@
 \* quick tier: the five MFL categories of the PK structural search space
 CONSTANTS
   Acts = {"A:INST", "A:FO", "A:ZO", "A:SEQ", "E:FO", "E:ZO", "E:MM", "E:MIX", "P:0", "P:1", "P:2", "P+", "P-", "T:0", "T:1", "T:3", "T:1N", "T:2N", "T:4N", "L:1", "L:0"}
-  StartNames = {"iv1", "oral1", "iv2", "oral2", "iv3", "oral3", "zo1", "seq1", "tr2"}
+  StartNames = {"iv1", "oral1", "iv2", "oral2", "iv3", "oral3", "zo1", "seq1", "tr2", "der1"}
   TrackHist = FALSE
   MaxHist = 0
 INIT Init
